@@ -21,7 +21,8 @@ from harness import docs, wide_trace
 from vlib import sx
 from vlib.paths import CORPUS
 
-SECTIONS = ('inline-baseline', 'thumb-size', 'display-parts', 'output-options', 'nesting-growth')
+SECTIONS = ('inline-baseline', 'thumb-size', 'display-parts', 'output-options', 'nesting-growth', 'margin-boxes',
+            'table-spans')
 
 
 # ---------------------------------------------------------------------------------------------
@@ -123,7 +124,7 @@ def add_baseline(run, sec):
     cases = list(baseline_cases())
     if not run.thorough:     # quick: up to two children exhaustively, a seeded sample of the three-children trees
         big = [c for c in cases if c[1] == 'block-k3']
-        cases = [c for c in cases if c[1] != 'block-k3'] + run.rng.sample(big, 200)
+        cases = [c for c in cases if c[1] != 'block-k3'] + run.rng.sample(big, 80)
     for case, tag in cases:
         out = docs.outcome(lambda: show(inline.inline_block_baseline(real_iblock(case))))
         wrapper, visible, y, margin_height, kids = case
@@ -376,7 +377,8 @@ CONSTRUCTS = {
     'span-padding': '<span style="padding:1px">{}</span>',
 }
 # variants of a construct measured in the quick tier under another name
-THOROUGH_ONLY = {'table-pct', 'thead', 'float-pct', 'inline-block-pct', 'ol-counter', 'rel', 'minmax', 'overflow'}
+THOROUGH_ONLY = {'table-pct', 'thead', 'float-pct', 'inline-block-pct', 'ol-counter', 'rel', 'minmax', 'overflow',
+                 'table-collapse', 'caption', 'div-pad', 'abs', 'fieldset', 'transform', 'break-avoid'}
 CALL_CAP = 150000
 
 
@@ -483,6 +485,71 @@ def growth_text(meta, impl, model):
 
 
 # ---------------------------------------------------------------------------------------------
+# documents: page-margin boxes of degenerate size; cells whose spans leave their row group
+
+MARGIN_SIDES = {
+    'top': ('top-left', 'top-center', 'top-right', 'padding:0 {n}px', 'border:solid;border-width:0 {n}px', 'margin:0 {n}px',
+            'width'),
+    'left': ('left-top', 'left-middle', 'left-bottom', 'padding:{n}px 0', 'border:solid;border-width:{n}px 0',
+             'margin:{n}px 0', 'height'),
+    'bottom': ('bottom-left', 'bottom-center', 'bottom-right', 'padding:0 {n}px', 'border:solid;border-width:0 {n}px',
+               'margin:0 {n}px', 'width'),
+    'right': ('right-top', 'right-middle', 'right-bottom', 'padding:{n}px 0', 'border:solid;border-width:{n}px 0',
+              'margin:{n}px 0', 'height'),
+}
+
+
+def margin_box_elements(thorough):
+    """One named page per element: the boxes of one side of the page (every subset that the css-page
+    margin-dimension algorithm distinguishes: a, b, c, a+c, a+b, a+b+c), the first of them with empty / non-empty
+    content and with nothing, padding, border or margins larger than the room between the corners, or a fixed size 0
+    / larger than the page; the others with empty / non-empty content."""
+    index = 0
+    for side, (a, b, c, padding, border, margin, dimension) in MARGIN_SIDES.items():
+        subsets = [(a,), (b,), (c,), (a, c), (a, b), (a, b, c)]
+        contents = (('""', '""'), ('""', '"y"'), ('"x"', '""'))
+        decorations = ['', padding.format(n=100), border.format(n=100), margin.format(n=100), f'{dimension}:0',
+                       f'{dimension}:500px', padding.format(n=70) + f';{dimension}:auto']
+        if not thorough:
+            subsets = [(a,), (b,), (a, c), (a, b, c)]
+            decorations = decorations[:5]
+            if side in ('bottom', 'right'):      # quick: the other two sides only where the sizes are all zero
+                subsets, contents, decorations = [(b,), (a, c)], contents[:1], [decorations[1], decorations[3]]
+        for subset, (main, other), decoration in itertools.product(subsets, contents, decorations):
+            index += 1
+            rules = ''.join(f'@{name}{{content:{main if i == 0 else other};{decoration if i == 0 else ""}}}'
+                            for i, name in enumerate(subset))
+            ident = f'{side}/{"+".join(n.split("-", 1)[1] for n in subset)}/{main}{other}/{decoration or "plain"}'
+            yield ident, (f'<style>@page m{index}{{size:200px;margin:30px;{rules}}}</style>'
+                          f'<p style="page:m{index}">x</p>')
+
+
+def table_span_elements(thorough):
+    """Tables of 2-4 rows in which one cell, in any row and first or second in its row, has rowspan 0, 2, 3, 5 or 70
+    (fits, ends with the group, leaves the group, leaves the table) and colspan 1 or 3; rows in one group, in
+    thead + tbody, or in two bodies split after the first row; fixed and automatic layout, collapsed borders."""
+    for rows, grouping in itertools.product((2, 3, 4) if thorough else (2, 3), ('plain', 'head', 'bodies')):
+        for at, second, rowspan, colspan in itertools.product(range(rows), (False, True), (0, 2, 3, 5, 70), (1, 3)):
+            if not thorough and (rowspan == 5 or (colspan == 3 and rowspan != 70)):
+                continue
+            trs = []
+            for r in range(rows):
+                cells = ['<td>a</td>', '<td>b</td>']
+                if r == at:
+                    cells.insert(1 if second else 0, f'<td rowspan="{rowspan}" colspan="{colspan}">s</td>')
+                trs.append('<tr>' + ''.join(cells) + '</tr>')
+            if grouping == 'plain':
+                inner = ''.join(trs)
+            elif grouping == 'head':
+                inner = f'<thead>{trs[0]}</thead><tbody>{"".join(trs[1:])}</tbody>'
+            else:
+                inner = f'<tbody>{trs[0]}</tbody><tbody>{"".join(trs[1:])}</tbody>'
+            style = ('', 'table-layout:fixed;width:100px', 'border-collapse:collapse')[(at + rowspan + rows) % 3]
+            yield (f'r{rows}-{grouping}/at{at}{"b" if second else "a"}/rs{rowspan}/cs{colspan}',
+                   f'<table style="{style}">{inner}</table>')
+
+
+# ---------------------------------------------------------------------------------------------
 
 def add_sections(prop, run):
     docs.quiet()
@@ -539,6 +606,20 @@ def add_sections(prop, run):
         'corpus/C02/growth_known.json; non-trivial = every case')
     prop._growth_known = growth_known()
     add_growth(run, sec)
+    sec = run.section(
+        'margin-boxes',
+        'documents: one named page per case, with the page-margin boxes of one side in every subset the css-page '
+        'margin-dimension algorithm distinguishes (a, b, c, a+c, a+b, a+b+c), empty / non-empty content, and padding, '
+        'border or margins larger than the room between the corners, fixed sizes 0 and 500px; rendered and written 60 '
+        'pages at a time (a failing batch is redone page by page); model: returns; non-trivial = every case')
+    add_batched(sec, list(margin_box_elements(run.thorough)), 60)
+    sec = run.section(
+        'table-spans',
+        'documents: tables of 2-4 rows (one group, thead + tbody, two bodies) with one cell, in every row and position, '
+        'whose rowspan is 0, 2, 3, 5 or 70 (fits, ends with its group, leaves the group, leaves the table) and colspan '
+        '1 or 3, in automatic, fixed and collapsed-border layout; rendered and written 60 tables at a time; model: '
+        'returns; non-trivial = every case')
+    add_batched(sec, list(table_span_elements(run.thorough)), 60)
 
 
 def classify(prop, d):
@@ -562,7 +643,8 @@ def judge(prop, d):
                 f'downsampled by {r}')
     if d['impl'].startswith('err:') or d['impl'] == 'bad-output':
         opts = d['meta'].get('options')
-        return f'rendering failed with {d["impl"]}' + (f' under options {opts}' if opts else '')
+        return (f'{d["meta"].get("doc_id", "")}: rendering failed with {d["impl"]}'
+                + (f' under options {opts}' if opts else ''))
     return None
 
 
